@@ -851,8 +851,17 @@ class Planner:
             sc = [x for x in co if self.shape(x) == ()]
             if len(sc) < 3:
                 return None
-            u = r.choice(sc)
-            ws = r.sample([x for x in sc if x != u], min(len(sc) - 1, r.randint(2, 3)))
+            # prefer coefficients that actually occur in the form
+            try:
+                inform = set(self.obj(fslot).coefficients())
+            except BaseException:  # noqa: B036
+                inform = set()
+            present = [x for x in sc if self.obj(x) in inform]
+            u = r.choice(present or sc)
+            cand = [x for x in present if x != u]
+            if len(cand) < 2:
+                cand = [x for x in sc if x != u]
+            ws = r.sample(cand, min(len(cand), r.randint(2, 3)))
             pairs = []
             for w in ws:
                 dw = self.call(r.choice(["ufl.sin", "ufl.cos", "ufl.exp"]), self.ref(u))
